@@ -143,7 +143,8 @@ def apply_edits(s, edits):
     """edits: list of [kind, position (original coordinates), nucleotide]; S replaces s[p], I inserts before s[p],
     D deletes s[p]. Applied in descending position so original coordinates stay valid."""
     out = list(s)
-    for kind, p, nt in sorted(edits, key=lambda e: (-e[1], e[0])):
+    # descending position; at one position the substitution / deletion of s[p] comes before an insertion in front of it
+    for kind, p, nt in sorted(edits, key=lambda e: (-e[1], 1 if e[0] == "I" else 0)):
         if kind == "S":
             out[p] = nt
         elif kind == "I":
@@ -214,7 +215,6 @@ def intersection_scores(arc_set, k, has_insertion=True, has_deletion=True):
 
     def leaves(x):
         if x not in cache:
-            level = {x: 1}
             frontier = [x]
             for _ in range(depth):
                 nxt = []
